@@ -28,6 +28,10 @@ def specs(ctx):
     add('d3.h3.n2', D(3, 3, 2, 1), [-2, -1, 0, -1, 0, 0], 240, 'every pair of leaves of the 4x4x4 grid')
     add('d2.h2.n2.box1', D(2, 2, 2, 0, BOX=1), [-3, -1, 0, -1, 0, 0], 60, 'shifted box with per-dimension widths')
     add('d4.h2.n2', D(4, 2, 2, 1), [-2, -1, 0, -1, 0, 0], 120, 'dimension 4: every pair of the 16 leaves')
+    add('dense.d4.h2.n16', D(4, 2, 16, 4), [-17, -1, 1, 0, 0, 0], 120, 'dense: all 16 children of the root occupied (upper level 0: one translation level), block sizes 1..17')
+    add('dense.d4.h2.n9', D(4, 2, 9, 4), [-10, -1, 0, 0, 0, 0], 120, 'nine of the sixteen siblings')
+    add('dense.d3.h3.n12', D(3, 3, 12, 4), [-13, -1, 0, -2, 0, 0], 200, 'twelve leaves of the first row-major rows: full and partial sibling sets in one group')
+    add('dense.d2.h4.n12', D(2, 4, 12, 4), [-13, -1, 1, -2, 0, 0], 200, '')
     add('d3.h12.n2.deep', D(3, 12, 2, 3), [2, 0, 0, -1, 0, 0], 240, 'deep sparse tree: ten translation levels, 33-bit indices')
     add('d1.h30.n2.deep', D(1, 30, 2, 3), [-2, -1, 0, -2, 0, 0], 240, 'Dim 1, height 30')
     if not q:
